@@ -925,7 +925,7 @@ func c17Witnesses(c *Cfg) {
 func runC17(c *Cfg) {
 	r := NewRng(c.Seed)
 	c17Witnesses(c)
-	n := c.Pick(2000, 40000)
+	n := c.Pick(1500, 40000)
 	if c.Focus {
 		n = c.Pick(4000, 40000)
 	}
@@ -946,7 +946,7 @@ func runC17(c *Cfg) {
 			}
 		}()
 	}
-	deadline := time.Now().Add(time.Duration(c.Pick(70, 900)) * time.Second)
+	deadline := time.Now().Add(time.Duration(c.Pick(55, 900)) * time.Second)
 	for i := 0; i < n && time.Now().Before(deadline); i++ {
 		sub := r.Sub()
 		maxMods, maxVers := 6, 3
